@@ -67,6 +67,7 @@ def a(ck: Check) -> None:
     # the reduced graph used for the reachability test
     test = next((c for c in own_walk(f.node) if isinstance(c, ast.Call) and callee_name(c) == "symbolic_attractor_test"), None)
     gname = text(test.args[2]) if test is not None and len(test.args) > 2 else None
+    fused: list = []
     for e, cn, comp, pstmt in producers:
         chain = []
         probs = []
@@ -101,6 +102,8 @@ def a(ck: Check) -> None:
                     cur = cur.func.value
                     continue
             break
+        if isinstance(cur, ast.Call) and callee_name(cur) == "symbolic_attractor_test":
+            steps.append(("closure", cur))      # converted right where the closure is found
         kinds = [s[0] for s in steps]
         if kinds[:3] != ["intersect", "transfer_from", "vertices"]:
             probs.append(f"the set is converted by the steps {kinds}; expected closure.vertices() -> transfer_from -> intersect(node space)")
@@ -119,7 +122,9 @@ def a(ck: Check) -> None:
                                                                    and isinstance(spv.func.value, ast.Call) else spv, sd_[0] if sd_ else cn) == f"FIELD<{sd_p}|{node_p}|space>"):
                 probs.append("the transferred set is not restricted to the node's space (states with other values of the fixed "
                              "variables would be included)")
-            if kinds[3:4] != ["elem"] or "sets" not in text(steps[3][1]):
+            if kinds[3:4] == ["closure"]:
+                fused.append(pstmt)
+            elif kinds[3:4] != ["elem"] or "sets" not in text(steps[3][1]):
                 probs.append("the converted sets are not the closures recorded by the seed loop")
         ck.ob("A", fm, pstmt, not probs, "; ".join(probs) if probs else
               "closure -> transfer_from(same reduced graph) -> intersect(node space)",
@@ -127,7 +132,27 @@ def a(ck: Check) -> None:
     # the conversion covers every recorded closure, in order
     probs = []
     comp0 = producers[0][2]
-    if comp0 is not None:
+    if fused and len(fused) == len(producers):
+        # no second loop: the set is converted and recorded next to its seed (same block, nothing but plain statements
+        # in between), so every recorded seed has its set, in the same order
+        seeds_e = rets[-1].value.elts[0]
+        for ps in fused:
+            blk = None
+            par = f.parents.get(ps)
+            for fld in ("body", "orelse", "finalbody"):
+                b_ = getattr(par, fld, None)
+                if isinstance(b_, list) and ps in b_:
+                    blk = b_
+            sib = [x for x in (blk or []) if isinstance(x, ast.Expr) and isinstance(x.value, ast.Call) and isinstance(x.value.func, ast.Attribute)
+                   and x.value.func.attr == "append" and text(x.value.func.value) == text(seeds_e)]
+            if not sib:
+                probs.append("a set is recorded apart from its seed: the two lists can get out of step")
+                continue
+            lo, hi = sorted((blk.index(ps), blk.index(sib[0])))
+            if any(not isinstance(x, (ast.Assign, ast.Expr)) for x in blk[lo:hi + 1]):
+                probs.append("a set is recorded apart from its seed: the two lists can get out of step")
+        anchor = fused[0]
+    elif comp0 is not None:
         if len(comp0.generators) != 1 or comp0.generators[0].ifs or isinstance(comp0.generators[0].iter, ast.Call):
             probs.append("not every recorded closure is converted, or the order is changed")
         anchor = producers[0][3]
@@ -139,6 +164,26 @@ def a(ck: Check) -> None:
         anchor = lp[0] if lp else f.node
     ck.ob("A", fm, anchor, not probs, "; ".join(probs) if probs else "all closures converted in recording order",
           key="conversion loop")
+    # results come back in the order of the candidates that were given: node_attractor_sets hands in the stored seeds and
+    # pairs the sets it gets back with them by position
+    probs = []
+    sl = c01._seed_loop(fm)
+    it = sl.iter
+    while isinstance(it, ast.Call) and callee_name(it) in ("enumerate", "list", "tuple") and it.args:
+        it = it.args[0]
+    if isinstance(it, ast.Call) and callee_name(it) in ("reversed", "sorted", "set", "frozenset"):
+        probs.append(f"the seed loop ranges over `{text(it)[:50]}`: seeds and sets are not returned in the order of the candidates")
+    L = it.id if isinstance(it, ast.Name) else None
+    cand_p = f.params()[2] if len(f.params()) > 2 else None
+    for n in own_walk(f.node):
+        if isinstance(n, ast.Call) and isinstance(n.func, ast.Attribute) and n.func.attr in ("reverse", "sort") \
+                and text(n.func.value) in (L, cand_p):
+            probs.append(f"line {n.lineno}: `{text(n)}` re-orders the candidates before they are tested: seeds and sets no longer come "
+                         f"back in the order in which the candidates (the stored seeds, when sets are recomputed) were given")
+        if isinstance(n, ast.Assign) and L and text(n.targets[0]) == L and isinstance(n.value, ast.Call) \
+                and callee_name(n.value) in ("sorted", "reversed", "set") and fm.cfgn(n).id not in fm.cfg.loop_nodes[sl]:
+            probs.append(f"line {n.lineno}: `{text(n)[:60]}` re-orders the candidates before they are tested")
+    ck.ob("A", fm, sl, not probs, "; ".join(probs) if probs else "candidates are tested in the order given", key="candidate order")
 
 
 def b(ck: Check) -> None:
@@ -471,6 +516,92 @@ def d(ck: Check) -> None:
             probs.append("a saturated variable can be skipped during saturation")
     ck.ob("D", fm, sat[0] if sat else loop, not probs, "; ".join(probs) if probs else "forward saturation over all saturated variables",
           key="saturation")
+    # whenever one of the two sets grows, the fixpoint loop goes round again (the new states must be saturated with the
+    # variables collected so far, whichever of the two sets they joined)
+    from .c13 import _flag_form, _tbranch
+    from .common import paths_imply
+    form = _flag_form(fm, loop)
+    probs = []
+    if form is not None and form[1] in (True, False):
+        flag, cont = form
+        clears = {n.id for n in fm.cfg.nodes if n.kind == "stmt" and n.id in fm.cfg.loop_nodes[loop] and isinstance(n.ast, ast.Assign)
+                  and text(n.ast.targets[0]) == flag and isinstance(n.ast.value, ast.Constant) and n.ast.value.value is cont}
+        hdr = fm.cfg.loop_header[loop]
+        tb = _tbranch(fm, loop)
+        tr = logic.Translator(lambda e_: text(e_))
+        n_g = 0
+        for n in fm.cfg.nodes:
+            if n.kind != "stmt" or n.id not in fm.cfg.loop_nodes[loop] or not isinstance(n.ast, ast.Assign) \
+                    or text(n.ast.targets[0]) not in (REACH, avoid_p):
+                continue
+            X = text(n.ast.targets[0])
+            v = fm.deref(n.ast.value, n)
+            if not (isinstance(v, ast.Call) and isinstance(v.func, ast.Attribute) and v.func.attr == "union" and text(v.func.value) == X
+                    and v.args and isinstance(v.args[0], ast.Name)):
+                continue
+            n_g += 1
+            D = v.args[0].id
+            goal = logic.B(f"T:{D}.is_empty()")
+            # conditions of the innermost iteration that contains the growth (simple paths cannot cross the loops that
+            # must run before it)
+            inner_ = [l_ for l_ in fm.cfg.enclosing_loops(n) if l_ is not loop]
+            st_ = _tbranch(fm, inner_[0]) if inner_ else tb
+            try:
+                r1 = paths_imply(fm, st_, n, goal, tr, stop=clears)
+                r2 = None if r1 is None else paths_imply(fm, n, hdr, goal, tr, stop=clears)
+            except AnalysisError:
+                r1 = r2 = None      # too many paths to decide: no claim
+            if r1 is not None and r2 is not None:
+                probs.append(f"line {n.lineno}: `{X}` can grow by a non-empty `{D}` on a path that leaves `{flag}` as it is "
+                             f"({r1[:100]}): the main loop may stop although the new states were never saturated -- the returned set "
+                             f"is not closed / a reachable avoid state goes unnoticed")
+        if n_g:
+            ck.ob("D", fm, loop, not probs, "; ".join(probs[:2]) if probs else
+                  f"every growth of the reach or avoid set re-arms the fixpoint loop ({n_g} growth statements)", key="growth re-arms")
+        # a forward step that is possible but not taken (size heuristic) leaves a trace that brings the loop back to it:
+        # the flag itself, or a latch that a later clear of the flag tests
+        from .c13 import _within
+        probs = []
+        latches = set()
+        for cid in clears:
+            for d_ in fm.cfg.dominators(fm.cfg.nodes[cid]):
+                if d_.kind == "branch" and d_.test is not None and d_.id in fm.cfg.loop_nodes[loop]:
+                    for y in ast.walk(d_.test):
+                        if isinstance(y, ast.Name):
+                            latches.add(y.id)
+        latch_sets = {n.id for n in fm.cfg.nodes if n.kind == "stmt" and n.id in fm.cfg.loop_nodes[loop] and isinstance(n.ast, ast.Assign)
+                      and isinstance(n.ast.targets[0], ast.Name) and n.ast.targets[0].id in latches and is_true(n.ast.value)}
+        growth_ids = {n.id for n in fm.cfg.nodes if n.kind == "stmt" and n.id in fm.cfg.loop_nodes[loop] and isinstance(n.ast, ast.Assign)
+                      and text(n.ast.targets[0]) == REACH}
+        n_d = 0
+        for b in fm.cfg.nodes:
+            if b.kind != "branch" or b.test is None or b.id not in fm.cfg.loop_nodes[loop]:
+                continue
+            t_, pol = b.test, b.pol
+            while isinstance(t_, ast.UnaryOp) and isinstance(t_.op, ast.Not):
+                t_, pol = t_.operand, not pol
+            if not (isinstance(t_, ast.Call) and isinstance(t_.func, ast.Attribute) and t_.func.attr == "is_empty"
+                    and isinstance(t_.func.value, ast.Name) and not pol):
+                continue
+            tn_ = fm.cfg.nodes[next(iter(fm.cfg.g.predecessors(b.id)))]
+            sd_ = fm.single_def(t_.func.value.id, tn_)
+            if not (sd_ and isinstance(sd_[1], ast.Call) and callee_name(sd_[1]) == "var_post_out" and len(sd_[1].args) == 2
+                    and text(sd_[1].args[1]) == REACH):
+                continue
+            inner_ = [l_ for l_ in fm.cfg.enclosing_loops(b) if l_ is not loop]
+            if not inner_:
+                continue
+            n_d += 1
+            il_ = inner_[0]
+            reach_ = _within(fm, il_, b, growth_ids | clears | latch_sets)
+            out_ = fm.cfg.loop_header[il_].id in reach_ or any(i not in fm.cfg.loop_nodes[il_] and i != fm.cfg.loop_header[il_].id for i in reach_)
+            if out_:
+                probs.append(f"line {b.lineno}: a non-empty forward step `{t_.func.value.id}` can be left out of `{REACH}` without the "
+                             f"fixpoint flag being cleared or a latch being set that clears it later: the loop can stop with this step "
+                             f"still possible, and the returned set is not closed (attractor sets too small)")
+        if n_d:
+            ck.ob("D", fm, loop, not probs, "; ".join(probs[:2]) if probs else
+                  "a declined forward step is remembered and taken later", key="declined steps")
     # avoid-hit test precedes every saturation round
     hits = [n for n in ast.walk(loop) if isinstance(n, ast.If) and any(is_hit_test("T:" + text(x)) for x in ast.walk(n.test) if isinstance(x, ast.Call))]
     ok = len(hits) >= 1 and all(any(isinstance(x, ast.Return) for x in h.body) for h in hits)
